@@ -18,7 +18,7 @@ ENGINES = [
     {"name": "codec", "path": "vf/engines/codec.cc", "serves_properties": ["C15", "C16", "C17"],
      "kind_free_text": "round-trip / differential property testing of log framing, CRC-32C, table files, Snappy, separators, version edits and varints against "
                        "independent reference codecs (vf/ref/ref.h), with exhaustive sub-spaces (separators over short strings, varint32)"},
-    {"name": "hist", "path": "vf/engines/hist.cc", "serves_properties": ["C01", "C06", "C07", "C13", "C14"],
+    {"name": "hist", "path": "vf/engines/hist.cc", "serves_properties": ["C01", "C06", "C07", "C13", "C14", "C17", "C19", "C20"],
      "kind_free_text": "model-based stateful property testing: rapidcheck-generated operation histories interpreted against lcdb and a "
                        "sorted-map model on a deterministic baton scheduler, with directory operations recorded and every reported table "
                        "decoded by an independent reader"},
@@ -106,6 +106,16 @@ CHECKS = {
                 text="Two parts; the weaker level is claimed. (a) crash side: batches of 2..400 (2000) updates spanning several log blocks, every crash point and image of the C02 enumeration plus torn "
                      "cuts; first and last marker of each batch must both be present or both absent and contents must equal the fold of whole batches. (b) concurrent side: writers set their key "
                      "group to one fresh token per batch while readers snapshot-read or scan whole groups under explored schedules; a view must reflect whole batches in program order."),
+    "C19": dict(engine="hist", cat="exploration", ref="3/C19",
+                technique="model-based stateful property testing with repair operations; oracle = independent decode of all surviving files",
+                text="Generated histories with repair operations at arbitrary points: after close, the newest version per key is computed from every surviving table and log with the reference "
+                     "decoders, metadata is removed or damaged in six ways, ldb_repair and ldb_open must succeed, ldb_get of every key and scans in both directions must equal the durable contents, "
+                     "follow-up writes must win and new files must take fresh numbers. One open known finding (stale ldb_get when an older version lives in a higher-numbered table) is excluded by signature."),
+    "C20": dict(engine="hist", cat="exploration", ref="3/C20",
+                technique="model-based stateful property testing with lifecycle operations (backup, copy, destroy, lock probes, refused opens)",
+                text="Generated histories with backup/copy/destroy/lock-probe/refused-open operations at arbitrary points; backups and copies are opened as independent databases and compared with the "
+                     "model at the moment they were taken, again after later source writes, and written to without affecting the source; byte-level directory snapshots show that refused opens and "
+                     "copies modify nothing and that destroy leaves foreign files alone; the lock is probed from the same process and from a forked child. Backups concurrent with writer threads are not yet explored."),
 }
 
 NOT_APPLICABLE = []
